@@ -63,7 +63,8 @@ def _work(job):
             tr, conc = storedriver.run_store_session(job["seed"], job["store"], job["profile"])
         elif kind == "witness":
             tr, conc = davgen.run_witness_session(job["witness"], frontend=job["cfg"][0], prefix=job["cfg"][1],
-                                                  backend=job["cfg"][2], principal=(list(job["cfg"]) + ["/user/"])[3])
+                                                  backend=job["cfg"][2], principal=(list(job["cfg"]) + ["/user/"])[3],
+                                                  audit_git=(job.get("dev") != "fault-enumeration"))
         else:
             raise ValueError(kind)
         tr["job"] = {k: v for k, v in job.items() if k != "behaviour"}
@@ -160,6 +161,16 @@ def run(prop, tier, seed, replay=None):
             jobs.append({"kind": "witness", "witness": e["witness"], "cfg": HTTP_CONFIGS[0], "tid": tid, "dev": d})
     # fault sequences: writes interrupted by an injected ENOSPC (served state only is judged)
     if prop in ("C01", "C02", "C08"):
+        # systematically: an overwrite, a create and a delete with the fault at every one of their
+        # file-system mutations, on a work-tree repository through both front ends
+        for cfg in (HTTP_CONFIGS[0], HTTP_CONFIGS[1]):
+            steps = [["mk", "cal1", "calendar"], ["put", "cal1", "a.ics", "@model:1"]]
+            for k in range(1, 19):
+                steps.append(["put", "cal1", "a.ics", "@model:%d" % (2 if k % 2 else 1), {"fault": k}])
+                steps.append(["put", "cal1", "n%d.ics" % k, "@model:3", {"fault": k}])
+                steps.append(["delete", "cal1", "n%d.ics" % k, {"fault": (k % 9) + 1}])
+            tid += 1
+            jobs.append({"kind": "witness", "witness": steps, "cfg": cfg, "tid": tid, "dev": "fault-enumeration"})
         for k in range(10 if quick else 100):
             tid += 1
             jobs.append({"kind": "fault", "seed": rng.randrange(1 << 30), "profile": prop,
@@ -381,4 +392,8 @@ def _work_replay(job, r):
         return davreplay.replay_rqs(job["rqs"], job["seed"], frontend=job["cfg"][0],
                                     prefix=job["cfg"][1], backend=job["cfg"][2],
                                     principal=(list(job["cfg"]) + ["/user/"])[3])
+    if job.get("kind") == "witness":
+        return davgen.run_witness_session(job["witness"], frontend=job["cfg"][0], prefix=job["cfg"][1],
+                                          backend=job["cfg"][2], principal=(list(job["cfg"]) + ["/user/"])[3],
+                                          audit_git=(job.get("dev") != "fault-enumeration"))
     return None
